@@ -17,7 +17,7 @@ from collections.abc import Callable, Iterable, Sized
 from dataclasses import dataclass, field
 from functools import wraps
 from itertools import count
-from math import inf
+from math import inf, isnan, ulp
 from opcode import opname
 from types import BuiltinFunctionType, BuiltinMethodType, CodeType, MethodType, TracebackType
 from typing import TYPE_CHECKING, Concatenate, ParamSpec
@@ -1018,6 +1018,31 @@ class AbstractExecutionTracer(ABC):  # noqa: PLR0904
         """
 
 
+def _numeric_distance(val1, val2) -> float:
+    """Distance between two numbers that are known to be different or unordered.
+
+    Args:
+        val1: the first number
+        val2: the second number
+
+    Returns:
+        A positive distance that is never NaN; inf if no finite distance exists
+    """
+    try:
+        try:
+            distance = float(abs(val1 - val2))
+        except TypeError:
+            # E.g., Decimal and float cannot be subtracted, but both convert to float.
+            distance = abs(float(val1) - float(val2))
+    except (ArithmeticError, TypeError, ValueError):
+        # E.g., an int too large for a float, a signaling Decimal NaN, or complex numbers.
+        return inf
+    if isnan(distance):
+        return inf
+    # The difference of two different numbers might not be representable as a float.
+    return max(distance, ulp(0.0))
+
+
 def _eq(val1, val2) -> float:
     """Distance computation for '=='.
 
@@ -1034,7 +1059,7 @@ def _eq(val1, val2) -> float:
     except TypeError:
         pass
     if is_numeric(val1) and is_numeric(val2):
-        return float(abs(val1 - val2))
+        return _numeric_distance(val1, val2)
     if is_string(val1) and is_string(val2):
         return string_distance(val1, val2)
     if is_bytes(val1) and is_bytes(val2):
@@ -1070,7 +1095,7 @@ def _lt(val1, val2) -> float:
     if val1 < val2:
         return 0.0
     if is_numeric(val1) and is_numeric(val2):
-        return (float(val1) - float(val2)) + 1.0
+        return _numeric_distance(val1, val2) + 1.0
     if is_string(val1) and is_string(val2):
         return string_lt_distance(val1, val2)
     if is_bytes(val1) and is_bytes(val2):
@@ -1091,7 +1116,7 @@ def _le(val1, val2) -> float:
     if val1 <= val2:
         return 0.0
     if is_numeric(val1) and is_numeric(val2):
-        return float(val1) - float(val2)
+        return _numeric_distance(val1, val2)
     if is_string(val1) and is_string(val2):
         return string_le_distance(val1, val2)
     if is_bytes(val1) and is_bytes(val2):
@@ -1379,7 +1404,7 @@ class ExecutionTracer(AbstractExecutionTracer):  # noqa: PLR0904
                     distance_false = len(value)
                 elif is_numeric(value):
                     # For numeric value, we can use their absolute value
-                    distance_false = float(abs(value))
+                    distance_false = _numeric_distance(value, 0)
                 else:
                     # Necessary to use inf instead of 1.0 here,
                     # so that a value for which we can't compute a false distance
